@@ -452,3 +452,17 @@ package hashgraph
 //@   ensures[kept]    __eq(event.Body.Transactions, old(event.Body.Transactions)) && __eq(event.Body.InternalTransactions, old(event.Body.InternalTransactions)) && __eq(event.Body.Parents, old(event.Body.Parents)) && __eq(event.Body.Creator, old(event.Body.Creator)) && event.Body.Index == old(event.Body.Index) && __eq(event.Body.BlockSignatures, old(event.Body.BlockSignatures)) && event.Body.Timestamp == old(event.Body.Timestamp)
 //@   ensures[self]    ret0 == nil ==> (event.Body.Parents[0] == "" ==> event.Body.selfParentIndex == -1) && (event.Body.Parents[0] != "" ==> __in(event.Body.Parents[0], G_events(h.Store)) && event.Body.selfParentIndex == G_events(h.Store)[event.Body.Parents[0]].Body.Index)
 //@   ensures[other]   ret0 == nil ==> (event.Body.Parents[1] == "" ==> event.Body.otherParentIndex == -1 && event.Body.otherParentCreatorID == 0) && (event.Body.Parents[1] != "" ==> __in(event.Body.Parents[1], G_events(h.Store)) && event.Body.otherParentIndex == G_events(h.Store)[event.Body.Parents[1]].Body.Index)
+
+// Database form (C15, C16): the wrapper carries the body, the signature and eight private fields; round,
+// Lamport timestamp and round-received are deliberately not stored (they are recomputed).
+//@ ghost func DBWrapperOf(e *Event) eventWrapper { return eventWrapper{Body: e.Body, Signature: e.Signature, CreatorID: e.Body.creatorID, OtherParentCreatorID: e.Body.otherParentCreatorID, SelfParentIndex: e.Body.selfParentIndex, OtherParentIndex: e.Body.otherParentIndex, TopologicalIndex: e.topologicalIndex, LastAncestors: e.lastAncestors, FirstDescendants: e.firstDescendants} }
+
+//@ func (e *Event) MarshalDB() ([]byte, error)
+//@   requires e != nil
+//@   modifies nothing
+//@   ensures[form] ret1 == nil ==> __seqeq(ret0, __json(DBWrapperOf(e)))
+
+//@ func (e *Event) UnmarshalDB(data []byte) error
+//@   requires e != nil
+//@   modifies e.Body, e.Signature, e.topologicalIndex, e.lastAncestors, e.firstDescendants
+//@   ensures[restore] ret0 == nil ==> (forall w eventWrapper :: __seqeq(data, __json(w)) ==> __eq(e.Body.Transactions, w.Body.Transactions) && __eq(e.Body.InternalTransactions, w.Body.InternalTransactions) && __eq(e.Body.Parents, w.Body.Parents) && __eq(e.Body.Creator, w.Body.Creator) && e.Body.Index == w.Body.Index && __eq(e.Body.BlockSignatures, w.Body.BlockSignatures) && e.Body.Timestamp == w.Body.Timestamp && e.Signature == w.Signature && e.Body.creatorID == w.CreatorID && e.Body.otherParentCreatorID == w.OtherParentCreatorID && e.Body.selfParentIndex == w.SelfParentIndex && e.Body.otherParentIndex == w.OtherParentIndex && e.topologicalIndex == w.TopologicalIndex && __eq(e.lastAncestors, w.LastAncestors) && __eq(e.firstDescendants, w.FirstDescendants))
